@@ -92,7 +92,13 @@ func (x *Exec) call(st *State, v *ssa.Call) bool {
 	}
 	switch f := c.Value.(type) {
 	case *ssa.Builtin:
+		x.userAsserts(st, fr, cn, false)
 		fr.env[v] = x.builtin(st, v, f.Name(), args)
+		if !st.dead {
+			x.curCall = v
+			x.userAsserts(st, fr, cn, true)
+			x.curCall = nil
+		}
 		return !st.dead
 	case *ssa.Function:
 		return x.callFunc(st, v, f, args, nil, cn)
@@ -253,7 +259,9 @@ func (x *Exec) applyContract(st *State, ct *Contract, sig *types.Signature, name
 	x.userAsserts(st, fr, cn, false)
 	defer func() {
 		if !st.dead {
+			x.curCall = v
 			x.userAsserts(st, fr, cn, true)
+			x.curCall = nil
 		}
 	}()
 	pre := st.snapshot()
@@ -352,6 +360,12 @@ func (x *Exec) applyContract(st *State, ct *Contract, sig *types.Signature, name
 	for _, e := range ct.Ensures {
 		f := x.evalBool(post, e)
 		st.assume(f)
+		if !ct.Trusted || true {
+			// also in the form normalised by the integer equations known on this path
+			if rf := x.rewriteWithEqs(st, f); rf != f {
+				st.assume(rf)
+			}
+		}
 		// a scalar result that the contract pins to a literal is used as that literal from now on
 		for i, rv := range rvals {
 			if t, ok := rv.(*Term); ok && t.Op == "const" {
@@ -893,6 +907,16 @@ func (x *Exec) userAsserts(st *State, fr *Frame, cn callName, after bool) {
 			continue
 		}
 		ctx := x.specCtx(st, fr)
+		if after && x.curCall != nil {
+			if rv, ok := fr.env[x.curCall]; ok {
+				ctx.names["result"] = rv // the value returned by the call this clause is anchored to
+				if tv, ok := rv.(TupleV); ok {
+					for k, e := range tv {
+						ctx.names[fmt.Sprintf("result%d", k)] = e
+					}
+				}
+			}
+		}
 		if a.Lemma != "" {
 			lm := x.db.lemma(a.Lemma)
 			if lm == nil {
@@ -910,12 +934,18 @@ func (x *Exec) userAsserts(st *State, fr *Frame, cn callName, after bool) {
 				}
 				vals[n] = t
 			}
+			x.lemmaFacts = nil
 			inst := x.lemmaTerm(lm, func(n, s string) *Term {
 				if vals[n].Sort != s {
 					specFail("apply %s: argument %s has sort %s, want %s", a.Lemma, n, vals[n].Sort, s)
 				}
 				return vals[n]
 			})
+			for _, lf := range x.lemmaFacts {
+				// lemmas used inside the applied lemma's statement are themselves proved facts
+				st.assume(lf)
+			}
+			x.lemmaFacts = nil
 			if lm.Induct != "" {
 				inst = x.b.Implies(x.b.Le(x.b.Int(0), vals[lm.Induct]), inst)
 			}
@@ -982,8 +1012,11 @@ func (x *Exec) rewriteWithEqs(st *State, t *Term) *Term {
 			l, r = r, l
 			sl, sr = sr, sl
 		}
-		// replace the larger side l by r; only compound, non-literal l
-		if sl <= 1 || l.IsLit() || sl == sr {
+		// replace the larger side l by r; only compound, non-literal l (ties: the newer term goes)
+		if sl == sr && l.id < r.id {
+			l, r = r, l
+		}
+		if sl <= 1 || l.IsLit() {
 			continue
 		}
 		if _, dup := m[l]; !dup {
